@@ -118,3 +118,16 @@ TEXTS["C07"] = {
     "note": TB + " Nonces, EVM/XVM (out-of-gas) failures and governance contracts are not in the model; they are covered by the dump monitor only (governance calls) or not at all (EVM/XVM).",
     "technique": "Lean 4 invariant proof (journal faithfulness over all contract writes) + differential correspondence + full-state dump monitor on the real executor",
 }
+
+TEXTS["C17"] = {
+    "text": "The table of every exported method of every registered built-in contract, with the permission calls in its body, and the Stub interface's method set are regenerated from /repo on every run "
+            "(go/extract -> lean/Bxh/Gen/Methods.lean) and the table theorems are re-checked by the kernel: nothing promoted from the Stub toolbox is dispatched and everything dispatched returns a Response "
+            "(C17_stub_toolbox_not_dispatched, C17_resolve_sound, for all contract/method names); each of the 32 contract-to-contract entry points named by the property carries a specific-callers-only gate "
+            "(C17_internal_entries_gated) and the entries without a gate of their own are exactly the listed ones (C17_ungated_entries_have_no_gate); the gate's decision function admits exactly the listed addresses / "
+            "self-or-admin (C17_specific_gate_iff, C17_specific_gate_refuses_outsiders, C17_self_admin_gate_iff) and is tied to contracts.checkPermission by an exhaustive differential run (7650 calls). "
+            "On the real node every method is called directly by an outsider, another chain's admin, a governance admin and the super admin with well-typed arguments, audit on/off, bracketed by full state dumps: "
+            "internal entries must fail and change nothing, no direct call may rewrite existing interchain counters / transaction records, objects of another chain stay untouched, failed calls change nothing. "
+            "One defect repaired (fix: Stub methods were dispatchable); known findings: InterchainManager.DeleteInterchain/Register and Governance.ZeroPermission have no caller check.",
+    "note": TB + " The bodies behind the gates (governance managers of bitxhub-core) are not modelled; that the gate's address lists contain only contract addresses is decided dynamically, not proved.",
+    "technique": "Lean 4 table theorems (decide +kernel over the regenerated method/guard table) + decision-function theorems + differential correspondence + role x method probing with state dumps",
+}
